@@ -157,6 +157,7 @@ L_Mixed3   == {"ALL", "EVEN", "ODD", "BYTE0", "BYTE3", "WORD0", "WORD1"}
 H_Mixed    == {0, 2}
 R_MixedPost == {<<-1, -1>>, <<1, 4>>}
 H_MixedPost == {0, 2, -3}
+H_MixedPost2 == {0, -3}
 CS_One     == {<<81, 1>>}
 CS_Mixed   == {<<81, 1>>, <<97, 1>>, <<81, 2>>}
 \* header forms x families, kinds per family: short CODE, long CODE, long DATA (, long IO).  Families: one of each
